@@ -174,7 +174,12 @@ func ExprKey(v ssa.Value) string {
 		return "(" + ExprKey(x.X) + ")." + n
 	case *ssa.IndexAddr:
 		return "&(" + ExprKey(x.X) + ")[" + ExprKey(x.Index) + "]"
+	case *ssa.BinOp:
+		return "(" + ExprKey(x.X) + x.Op.String() + ExprKey(x.Y) + ")"
 	case *ssa.Call:
+		if b, ok := x.Call.Value.(*ssa.Builtin); ok && (b.Name() == "len" || b.Name() == "cap") && len(x.Call.Args) == 1 {
+			return b.Name() + "(" + ExprKey(x.Call.Args[0]) + ")"
+		}
 		// pure constructors of the time package: equal arguments give equal values
 		if f := x.Call.StaticCallee(); f != nil && f.Pkg != nil && f.Pkg.Pkg.Path() == "time" && (f.Name() == "Unix" || f.Name() == "UnixMilli" || f.Name() == "UnixMicro") {
 			var as []string
